@@ -39,7 +39,7 @@ def check_case(c, tier, R):
             if st[1] != ref:
                 ok, why = CM.model_reads(c.T, st[1], c.v)
                 R.violation('der.bytes', c.record(enc='der'), st[1][:80].hex(), ref[:80].hex(), 'der.encoder',
-                            feats | {'value_preserved' if ok else 'value_changed'}, c.idx,
+                            feats | {'value_preserved' if ok else 'value_changed'} | c.kf('der', st[1]), c.idx,
                             CM.script_for(c, 'der'))
             else:
                 for f in feats:
@@ -56,12 +56,12 @@ def check_case(c, tier, R):
         ok, why = CM.model_reads(c.T, st[1], c.v)
         if not ok:
             R.violation('cer.value', c.record(enc='cer'), '%s: %s' % (st[1][:60].hex(), why), repr(c.v),
-                        'cer.encoder', feats, c.idx, CM.script_for(c, 'cer'))
+                        'cer.encoder', feats | c.kf('cer', st[1]), c.idx, CM.script_for(c, 'cer'))
         else:
             bad = M.cer_rules(c.T, st[1])
             if bad:
                 R.violation('cer.rules', c.record(enc='cer'), '%s: %s' % (st[1][:60].hex(), '; '.join(bad[:3])),
-                            'canonical form', 'cer.encoder', feats | {'rule:' + bad[0].split(' at ')[0][:40]},
+                            'canonical form', 'cer.encoder', feats | {'rule:' + bad[0].split(' at ')[0][:40]} | c.kf('cer', st[1]),
                             c.idx, CM.script_for(c, 'cer'))
             else:
                 for f in feats:
@@ -84,7 +84,8 @@ def check_case(c, tier, R):
             ok, why = CM.model_reads(c.T, st[1], c.v)
             if not ok:
                 R.violation('ber.value', c.record(enc='ber', defMode=defMode, chunk=ch),
-                            '%s: %s' % (st[1][:60].hex(), why), repr(c.v), 'ber.encoder', feats, c.idx,
+                            '%s: %s' % (st[1][:60].hex(), why), repr(c.v), 'ber.encoder',
+                            feats | c.kf('ber', st[1], defMode, ch), c.idx,
                             CM.script_for(c, 'ber', opts))
             else:
                 for f in feats:
